@@ -183,9 +183,12 @@ def run(ctx):
                       construct='tm:exact', detail='[%s,%s]' % (lo, hi))
         else:
             ctx.bad('C08-tm', 'narrowing cast in ToTM', x, 'unrecognised operand %s' % ek, construct='tm:cast')
-    Ff = ctx.facts(f)
-    for x in walk(f):
-        if x.get('kind') == 'CallExpr' and callee(x) and callee(x)[0] == 'fn' and callee(x)[1].get('name') == 'FormatTM':
+    n_sites = 0
+    for (x, Ff) in [(x_, ctx.facts(f_)) for k_, (u_, f_) in sorted(G.defs.items()) for x_ in walk(f_)
+                    if x_.get('kind') == 'CallExpr' and callee(x_) and callee(x_)[0] == 'fn' and callee(x_)[1].get('name') == 'FormatTM'
+                    and (callee(x_)[1].get('_qn') or '').startswith('cctz::')]:
+        if True:
+            n_sites += 1
             a = peel(call_args(x)[1])
             ok = False
             if a.get('kind') in ('CXXConstructExpr', 'CXXTemporaryObjectExpr', 'CXXFunctionalCastExpr'):
@@ -200,7 +203,9 @@ def run(ctx):
             ctx.check(ok, 'C08-tm', 'FormatTM at %s is given a non-empty format' % pos(x), x,
                       'FormatTM can be called with an empty format: it takes &buf[0] of an empty vector',
                       construct='tm:formattm:%s' % Ff.keys.key(call_args(x)[1])[:40])
-    ctx.minimum('C08-tm', 8)
+    if n_sites < 1:
+        raise AnalysisBroken('C08-tm: no call of FormatTM found')
+    ctx.minimum('C08-tm', 3)
 
     # ---- C08-escape: a specifier is interpreted only after an odd-length run of '%'
     Ff = ctx.facts(f)
